@@ -600,6 +600,28 @@ def monitor_generic(doc, opts, pull, sax, dom):
     return bad
 
 
+def monitor_scalar(op, got, stats=None):
+    """`dec <hex>` against the reference decoder, `utf8 <cp>` against Python's UTF-8 codec."""
+    t = op.split()
+    if got.startswith("throw") or got.startswith("crash:"):
+        return "X2/UB: %s: %s" % (t[0], got)
+    if t[0] == "dec":
+        raw = unhex(t[1])
+        want, st = ref_decode(raw)
+        if st == "ok" and got != "ok " + hexs(want):
+            return "X5: decodeEntities(%r) = %s, reference says ok %s" % (raw, got, hexs(want))
+        if st == "error" and not got.startswith("err "):
+            return "X5: decodeEntities(%r) = %s, reference says it must be rejected" % (raw, got)
+        if st == "unspecified" and stats is not None:
+            stats["unspecified_numeric_refs"] += 1
+    elif t[0] == "utf8":
+        cp = int(t[1])
+        want = "fail" if (cp > 0x10FFFF or 0xD800 <= cp <= 0xDFFF) else "ok " + hexs(chr(cp).encode("utf-8"))
+        if got != want:
+            return "X5: encodeUtf8(%#x) = %s, UTF-8 says %s" % (cp, got, want)
+    return None
+
+
 def monitor_tree(c, impl):
     """Faithfulness (X7): the answers equal what the generator rendered, slice for slice."""
     bad = []
@@ -786,7 +808,7 @@ def gen_limit_cases(rng, count):
 MUT_BYTES = b"<>/=\"'&;!?-[] \n\ta:#x0]\x00\x80\xff"
 
 
-def gen_mutation_cases(rng, ndocs, per_doc_cap):
+def gen_mutation_cases(rng, ndocs, per_doc_cap, all_bytes_for=0):
     """All truncations and single-byte substitutions/deletions/insertions (from a set of structurally interesting bytes) of small documents."""
     seeds = [b"<a/>", b"<a>x</a>", b"<a b=\"1\">t</a>", b"<a><b/></a>", b"<!--c--><a/>", b"<?p d?><a/>", b"<a><![CDATA[x]]></a>",
              b"<!DOCTYPE a [<!ENTITY e \"v\">]><a>&e;</a>", b"<a>&lt;&#65;&#x42;</a>", b"<a b='&amp;' c=\"d\"/>", b"<x:a x:b=\"1\"></x:a>",
@@ -799,19 +821,19 @@ def gen_mutation_cases(rng, ndocs, per_doc_cap):
         if 4 <= len(d) <= 48:
             docs.append(d)
     cases = []
-    for d in docs[:ndocs]:
+    for di, d in enumerate(docs[:ndocs]):
         muts = []
         for k in range(len(d) + 1):
             muts.append(d[:k])
         for k in range(len(d)):
             muts.append(d[:k] + d[k + 1:])
-            for b in MUT_BYTES:
+            for b in (range(256) if di < all_bytes_for else MUT_BYTES):
                 if d[k] != b:
                     muts.append(d[:k] + bytes([b]) + d[k + 1:])
         for k in range(len(d) + 1):
             for b in b"<>/\"&; ":
                 muts.append(d[:k] + bytes([b]) + d[k:])
-        if len(muts) > per_doc_cap:
+        if len(muts) > per_doc_cap and di >= all_bytes_for:
             rng.shuffle(muts)
             muts = muts[:per_doc_cap]
         for m in muts:
@@ -959,7 +981,47 @@ def replayable(c):
     return {k: v for k, v in c.items() if k in ("cat", "ops", "expect", "opts", "limit", "need", "value", "fits", "file")}
 
 
+def replay(ctx):
+    """Re-run the op list of a replay / corpus file on the real code and the model; exit 1 if the failure is still there."""
+    obj = json.load(open(ctx.replay))
+    ops = obj.get("ops") or []
+    ctx.translate(["xml"])
+    ctx.lake_build(MODULES)
+    hb = ctx.build_harness("harness/c14_xml.cpp", sanitize=True)
+    if not hb or not ops:
+        print("replay: nothing to run (kind=%s)" % obj.get("kind"))
+        return 1 if ctx.violations else 0
+    (c, impl, model), = ctx.lockstep("xml", hb, [{"cat": "replay", "ops": ops}])
+    fails = []
+    docs = {}
+    for o, a, b in zip(ops, impl, model):
+        print("op    %s\n impl  %s\n model %s" % (o[:200], a[:300], b[:300]))
+        t = o.split()
+        if t[0] in ("pull", "sax", "dom") and len(t) == 7:
+            docs.setdefault((tuple(int(x) for x in t[1:6]), t[6]), {})[t[0]] = a
+        elif t[0] in ("dec", "utf8"):
+            f = monitor_scalar(o, a)
+            if f:
+                fails.append(f)
+    for (o, h), lines in docs.items():
+        fails += monitor_generic(unhex(h), o, lines.get("pull"), lines.get("sax"), lines.get("dom"))
+    exp = obj.get("expected_by_generator") or obj.get("expect")
+    if exp:
+        for o, a, e in zip(ops, impl, exp):
+            if a != e:
+                fails.append("X7: `%s` -> %s, the generator/corpus expects %s" % (o[:60], first_diff(a, e), first_diff(e, a)))
+    for f in fails:
+        print("PROPERTY FAILS:", f[:300])
+    still = bool(fails) or impl != model
+    print("replay: %s" % ("still failing" if still else "no longer failing"))
+    import shutil
+    shutil.rmtree(ctx.work, ignore_errors=True)
+    return 1 if still else 0
+
+
 def run(ctx: Ctx):
+    if ctx.replay:
+        return replay(ctx)
     quick = ctx.tier == "quick"
     scale = 1 if quick else 15
     rng = ctx.rng
@@ -981,7 +1043,7 @@ def run(ctx: Ctx):
         cases += gen_tree_cases(rng.fork("tree"), 4000 * scale, feats)
         cases += gen_limit_cases(rng.fork("limit"), 400 * scale)
         cases += gen_default_boundary_cases(rng.fork("dflt"))
-        cases += gen_mutation_cases(rng.fork("mut"), 40 * (1 if quick else 8), 1000 if quick else 3000)
+        cases += gen_mutation_cases(rng.fork("mut"), 40 * (1 if quick else 8), 1000 if quick else 3000, all_bytes_for=(2 if quick else 15))
         cases += gen_mutated_tree_cases(rng.fork("mtree"), 3000 * scale)
         cases += gen_random_cases(rng.fork("rand"), 4000 * scale)
         cases += gen_entity_cases(rng.fork("ent"), 1500 * scale)
@@ -1030,29 +1092,13 @@ def run(ctx: Ctx):
                 for op, got, want in zip(c["ops"], impl, c["expect"]):
                     if got != want:
                         fails.append("%s: corpus witness %s: `%s` -> %s, expected %s" % (c.get("tag", "X7"), c.get("file"), op[:60], got[:120], want[:120]))
-            elif cat == "entity":
-                raw = c["raw"]
-                want, st = ref_decode(raw)
-                got = impl[0]
-                if got.startswith("throw") or got.startswith("crash:"):
-                    fails.append("X2/UB: decodeEntities: %s" % got)
-                elif st == "ok" and got != "ok " + hexs(want):
-                    fails.append("X5: decodeEntities(%r) = %s, reference says ok %s" % (raw, got, hexs(want)))
-                elif st == "error" and not got.startswith("err "):
-                    fails.append("X5: decodeEntities(%r) = %s, reference says it must be rejected" % (raw, got))
-                elif st == "unspecified":
-                    stats["unspecified_numeric_refs"] += 1
-            elif cat == "utf8":
-                cp = c["cp"]
-                got = impl[0]
-                if cp > 0x10FFFF or 0xD800 <= cp <= 0xDFFF:
-                    want = "fail"
-                else:
-                    want = "ok " + hexs(chr(cp).encode("utf-8"))
-                if got != want:
-                    fails.append("X5: encodeUtf8(%#x) = %s, UTF-8 says %s" % (cp, got, want))
+            elif cat in ("entity", "utf8"):
+                f = monitor_scalar(c["ops"][0], impl[0], stats)
+                if f:
+                    fails.append(f)
             elif cat == "defaults":
-                pass
+                if impl[0] != "%d %d %d %d %d" % DEFAULT_OPTS:
+                    fails.append("X4: Options{} defaults are %s, the generator assumes %s" % (impl[0], DEFAULT_OPTS))
             ctx.count_case("\n".join(c["ops"]), nontrivial=nontrivial)
             if cat in ("tree", "limit", "mutation", "mutated-tree") and len(ctx.cov["samples"]) < 6 and rng.chance(1, 1500):
                 ctx.sample({"cat": cat, "ops": [o[:200] for o in c["ops"][:1]], "impl": [l[:200] for l in impl[:1]]})
@@ -1073,9 +1119,13 @@ def run(ctx: Ctx):
     ctx.extra["outcomes"] = stats
     ctx.extra["repo_tree_sha"] = ctx.repo_tree_sha(ANCHOR_FILES)
     ctx.extra["not_proved"] = [
-        "X7 in full (text, references, CDATA, comments, PIs and doctype inside the rendered document): proved for the element/attribute skeleton with every formatting "
-        "choice plus the white-space/text interaction (F29); the rest of X7 is checked differentially (generator-rendered trees with exact offsets, expat cross-check)",
-        "line/column values of tokens and errors are tied by lockstep only (no theorem states what they should be)"]
+        "X7 in full — text, references, CDATA, comments, PIs and DOCTYPE *inside* the rendered document: proved are the element/attribute skeleton for every "
+        "well-nested tag sequence and every forest of element trees with every formatting choice (X7_skeleton_faithful, X7_tree_faithful) and the white-space/text "
+        "interaction of F29 at the level of next() (X7_leading_space_kept); the rest of X7 is checked differentially (generator-rendered trees compared slice for "
+        "slice with exact offsets/line/column, DOM compared with the generator's strings, expat cross-check)",
+        "line/column values of tokens and errors are tied by lockstep only (no theorem states what they should be)",
+        "X5 completeness direction (every well-formed reference string decodes) is not stated as a theorem; soundness, rejection of undefined entities, numeric value and "
+        "UTF-8 correctness are"]
     ctx.extra["observations"] = [
         "numeric references accumulate in 32 bits and wrap on ill-formed input (&#x100000041; -> 'A'); '&#x;' decodes to U+0000; both mirrored by the model, outside the well-formed subset",
         "a document with exactly maxTotalTokens tokens is rejected (the budget test precedes the call that would emit Eof): stricter than the limit, never laxer",
